@@ -29,6 +29,19 @@ CHECKS["C06"] = dict(cat="exploration", engine="txn",
    text="Schemas with one or two single-/multi-column indexes per table, histories concentrated on 3-4 index values with swaps, rotations, hand-overs, delete+insert and 'everybody to one value then away' patterns; after every commit the stored rows are scanned for duplicate index tuples, a transaction whose final state (after GC and weak pruning) has a duplicate must be rejected, one whose final state is duplicate-free must not be rejected with an index violation. Held = on the transactions generated; one known finding (transient sharing of an index value inside a transaction) is reported as KNOWN-FINDING.",
    note="Schema indexes range over scalar columns. Final-state duplicates are decided by the reference model.", ref="4/C06")
 
+CHECKS["C10"] = dict(cat="exploration", engine="codec",
+   technique="law-checking runtime monitor: small scope enumerated completely + random larger values, through the public update API and the verif-exported difference primitives",
+   text="For every column kind and every pair (a,b): the difference computed for an update a->b is empty iff a=b, applying it (after a JSON round trip) to a yields b, neither step alters the source model, arbitrary peer differences are applied by the update2 rules, and merge(o,d1,d2) composes. All ordered lists of all subsets of a 4-element universe per set type (4225 pairs each), all 27x27 map pairs for four map types, optionals/atoms over three values are enumerated completely; random sets/maps up to 40 elements are added. Held = on the enumerated and sampled pairs; the input space itself is unbounded.",
+   note="Sets compared as sets; nil and empty collections both exercised.", ref="4/C10")
+CHECKS["C11"] = dict(cat="exploration", engine="codec",
+   technique="reference-model monitor over accumulated updates: sequences replayed by the reference model, accumulated ModelUpdates judged by first-old/last-new, modify-applied-to-first-old, net-zero and insert/delete absorption rules",
+   text="Sequences of insert/update/mutate/delete on one row are accumulated exactly as a transaction does (AddOperation per operation, Merge, next operation sees the previous result). All triples (original, first change, second change) over 3-element universes for sets, 27^3 map triples, optionals and atoms are enumerated; random chains of length 2-6 restore columns and overlap on elements (including two mutations of one column in one operation, nil vs empty collections). Held = on the enumerated and sampled sequences.",
+   note="The reference execution of the same sequence (RFC 7047 semantics) provides first old / last new.", ref="4/C11")
+CHECKS["C15"] = dict(cat="exploration", engine="txn",
+   technique="differential runtime monitor: ovsdb.ExpandNamedUUIDs and the stored rows after Transact vs. reference name resolution, position by position",
+   text="Transactions with 1-4 named inserts; names in scalar/optional/set/map-key/map-value/map-key+value uuid positions of row values, conditions (incl. _uuid) and mutation arguments, before and after the defining insert, with explicit or server-assigned uuids; strings equal to names in string columns; conflicting claims of a name. The expansion is compared position by position and the stored rows are compared with the reference resolution (using the uuids the inserts reported); no named uuid may survive. Held = on the transactions generated.",
+   note="Reference columns are plain uuid or weak so that integrity rules do not mask the transactions of interest; a uuid identifies a row of one table.", ref="4/C15")
+
 NOT_YET = "check not built yet (work in progress in this round); no claim is made"
 
 def main():
